@@ -173,6 +173,9 @@ func C03(t *rapid.T) *world.Scenario {
 			odd = 35
 		}
 		MaybeOddForm(t, "odd"+itoa(int64(len(sc.Steps))), rq, odd)
+		if rq.OpaqueForm != 0 && Pct(t, "absform"+itoa(int64(len(sc.Steps))), 30) {
+			rq.OpaqueForm = 3
+		}
 		if rq.OpaqueForm == 0 && Pct(t, "rootless"+itoa(int64(len(sc.Steps))), 4) {
 			rq.Rootless = true
 		}
